@@ -10,6 +10,7 @@
 import HSModel.Proofs.TextLemmas
 import HSModel.Proofs.StepLemmas
 import HSModel.Props.C15
+import HSModel.Props.C10
 namespace HS.C18
 open Abs
 variable (cfg : Config) (o : Oracle)
@@ -166,5 +167,18 @@ theorem frame (a : Abs) (call : Call) (q g : Str) (hq : call.pidStr ≠ some q) 
 example : inRefs "p".toList (renderLines ["pq".toList, "P".toList]) = false ∧
           inRefs "pq".toList (removeLines "p".toList (renderLines ["p".toList, "pq".toList])) = true := by
   decide
+
+/-- **Opaque under concurrency, on the concrete program texts.** Whatever strings the identifiers
+    are: if the identifier hash keeps q apart from the pids the calls are addressed to (distinct
+    hashes of equal length — what `NoColl` gives for distinct strings), then any number of threads
+    running any such calls, under every schedule, every granularity and any fault plan, never
+    change q's pid reference or any of q's metadata documents — at no step. -/
+theorem other_identifiers_untouched_under_every_interleaving (cfg : Config) (o : Oracle) (calls : List Call)
+    (q : Str)
+    (h : ∀ c ∈ calls, ∀ p, c.pidStr = some p → o.hId q ≠ o.hId p ∧ (o.hId q).length = (o.hId p).length)
+    (w0 : World) (fuel : Nat) (sched : List Nat) (n : Nat) :
+    C10.SameFor (o.hId q) w0.st
+      (runSchedule fuel { w := w0, ts := calls.map (fun c => TState.fresh (c.prog cfg o)) } sched n).1.w.st :=
+  C10.other_pids_untouched_under_every_interleaving cfg o calls q (C10.foreign_of_calls o calls q h) w0 fuel sched n
 
 end HS.C18
